@@ -10,7 +10,7 @@
 From Coq Require Import List NArith ZArith Bool.
 Import ListNotations.
 Require Import MV.Common.Interleave MV.C04.F64bits MV.C04.Model MV.C04.Spec MV.C04.Exec
-               MV.C04.Proofs MV.C04.Proofs2 MV.C04.ExecProofs.
+               MV.C04.Proofs MV.C04.Proofs2 MV.C04.Proofs3 MV.C04.ExecProofs.
 Open Scope N_scope.
 
 (* Exec.run_case / Exec.spec_ok are [grun_case prim_ops] / [gspec_ok prim_ops] (native floats) *)
@@ -112,5 +112,18 @@ Theorem C04_noop_inert :
   (forall p1 o p2, lower (p1 ++ (RNoop, o) :: p2) = lower (p1 ++ p2)).
 Proof. split; [exact noop_inert_seq|exact noop_inert_lower]. Qed.
 
-Theorem C04_total : forall F l p, ~ In OPanic (srun F p l) /\ length (srun F p l) = length l.
+(* the model has no Panic and no Hang outcome (the driver reports a panic of the real code as
+   OPanic and a call that does not return as OHang: both disagree with the model and fail spec_ok) *)
+Theorem C04_total : forall F l p,
+  ~ In OPanic (srun F p l) /\ ~ In OHang (srun F p l) /\ length (srun F p l) = length l.
 Proof. exact total_seq. Qed.
+
+(* every call returns: a thread left alone (from ANY state: inside a CAS loop, with any finite
+   script of spurious CAS failures, any remaining program) is finished after [measure] of its own
+   steps, and has then completed exactly the call in progress and the calls still to make *)
+Theorem C04_solo_terminates : forall F s l,
+  let r := solo F (measure s l) s l in
+  step F (fst r) (snd r) = None /\
+  cas (snd r) = None /\ todo (snd r) = [] /\
+  rev (done (snd r)) = rev (done l) ++ cur l ++ todo l.
+Proof. exact solo_terminates. Qed.
